@@ -49,16 +49,16 @@ def resolveUnknown (T : Tables) (n : Node) : Node :=
 def assignDescriptors (T : Tables) (flags : Nat) (body : List Node) : List Node :=
   body.map fun n =>
     if hasFlag flags OP_EXPAND_DELAY_REPL ∧ (hasFlag flags OP_ZDRC_SKIP ∨ hasFlag flags OP_ZDRC_IGNORE) then
-      { n with flags := n.flags ||| FLAG_SKIPPED ||| FLAG_IGNORED }
+      { n with flags := { n.flags with skipped := true, ignored := true } }
     else resolveUnknown T n
 
 /-- one replica of `bufr_repl_descriptors`: duplicate the body with rank `j+1` -/
-def replicaOf (T : Tables) (extra : Nat) (body : List Node) (j : Nat) : List Node :=
+def replicaOf (T : Tables) (extra : Bool) (body : List Node) (j : Nat) : List Node :=
   body.map fun n =>
     let n1 := resolveUnknown T n
-    { n1 with flags := (n1.flags &&& (255 - FLAG_SKIPPED)) ||| extra, replRank := j + 1 }
+    { n1 with flags := { n1.flags with skipped := false, class33 := n1.flags.class33 || extra }, replRank := j + 1 }
 
-def replicas (T : Tables) (extra : Nat) (body : List Node) (count : Nat) : List Node :=
+def replicas (T : Tables) (extra : Bool) (body : List Node) (count : Nat) : List Node :=
   (List.range count).flatMap (replicaOf T extra body)
 
 /-- members of a Table D entry as fresh nodes; `none` when a member is unknown to Table B and not
@@ -67,7 +67,7 @@ def memberNodes (T : Tables) : Option Nat → List Nat → Option (List Node)
   | _, [] => some []
   | prev, c :: cs =>
     let n := mkNode T c
-    let ok : Bool := Desc.f c != 0 || n.enc.nbits != -1 || (match prev with | some p => isSigDatawidth p | none => false)
+    let ok : Bool := Desc.f c != 0 || n.enc.nbits != -1 || (prev.map isSigDatawidth).getD false
     if ok then (memberNodes T (some c) cs).map (n :: ·) else none
 
 mutual
@@ -79,7 +79,7 @@ def estimateLoop (T : Tables) : Nat → List Node → Nat × Int → Nat × Int 
     let a1 := if n.enc.afNbits > 0 then acc + n.enc.afNbits else acc
     let (a2, last) :=
       if n.enc.nbits > 0 then (a1 + n.enc.nbits, (lastDesc, lastNbits))
-      else if hasFlag n.flags FLAG_SKIPPED ∨ hasFlag n.flags FLAG_EXPANDED ∨ hasFlag n.flags FLAG_IGNORED then
+      else if n.flags.skipped ∨ n.flags.expanded ∨ n.flags.ignored then
         (a1, (lastDesc, lastNbits))
       else if lastDesc = n.desc then (a1 + lastNbits, (lastDesc, lastNbits))
       else if Desc.f n.desc = 3 ∧ (repDesc = 0 ∨ (repDesc > 0 ∧ repCnt > 0)) then
@@ -102,8 +102,8 @@ def replDescriptors (T : Tables) : Nat → Nat → Option Nat → List Node → 
   | 0, _, _, _, _ => .error .fuel
   | f+1, flags, s4, body, count =>
     let extra := match body with
-      | [b] => if Desc.f b.desc = 0 ∧ Desc.x b.desc = 33 then FLAG_CLASS33 else 0
-      | _ => 0
+      | [b] => decide (Desc.f b.desc = 0 ∧ Desc.x b.desc = 33)
+      | _ => false
     let tooLong := match s4 with
       | some maxLen =>
         if count > 0 then
@@ -139,7 +139,7 @@ def expandList (T : Tables) : Nat → Nat → Option Nat → List Node → XRes
       let fx := Desc.f n.desc
       let x := Desc.x n.desc
       let y := Desc.y n.desc
-      let done := { n with flags := n.flags ||| FLAG_EXPANDED ||| FLAG_SKIPPED }
+      let done := { n with flags := { n.flags with expanded := true, skipped := true } }
       if fx = 1 then
         if y > 0 then
           if rest.length < x then .error .null
@@ -153,17 +153,18 @@ def expandList (T : Tables) : Nat → Nat → Option Nat → List Node → XRes
           | c31 :: rest' =>
             if Desc.f c31.desc = 0 ∧ Desc.x c31.desc = 31 then
               let value0 : Int := if c31.hasVal then c31.ival else -1
-              let c31v : Node := if value0 < 0 then { c31 with hasVal := true, ival := 0 } else c31
+              let c31v : Node := { c31 with hasVal := c31.hasVal || decide (value0 < 0),
+                                            ival := if value0 < 0 then 0 else c31.ival }
               let value : Int := if value0 < 0 then 0 else value0
               let rep0 := solveReplication value (Desc.y c31.desc)
               let rep := if rep0 < 0 then 0 else rep0
-              let c31f := { c31v with flags := c31v.flags ||| FLAG_CLASS31 }
+              let c31f := { c31v with flags := { c31v.flags with class31 := true } }
               if rep > 0 ∧ hasFlag flags OP_EXPAND_DELAY_REPL then
                 if rest'.length < x then .error .null
                 else do
                   let (sub, e1) ← replDescriptors T f flags s4 (rest'.take x) rep.toNat
                   let (r, e2) ← expandList T f flags s4 (rest'.drop x)
-                  pure (done :: { c31f with flags := c31f.flags ||| FLAG_EXPANDED } :: sub ++ r, e1 || e2)
+                  pure (done :: { c31f with flags := { c31f.flags with expanded := true } } :: sub ++ r, e1 || e2)
               else do
                 let body := assignDescriptors T flags (rest'.take x)
                 let (r, e2) ← expandList T f flags s4 (rest'.drop x)
@@ -176,7 +177,7 @@ def expandList (T : Tables) : Nat → Nat → Option Nat → List Node → XRes
         let (r, e2) ← expandList T f flags s4 rest
         pure (done :: sub ++ r, e1 || e2)
       else
-        let n' := if fx = 0 ∧ x = 31 then { n with flags := n.flags ||| FLAG_CLASS31 } else n
+        let n' := { n with flags := { n.flags with class31 := n.flags.class31 || decide (fx = 0 ∧ x = 31) } }
         (expandList T f flags s4 rest).map fun (r, e) => (n' :: r, e)
 end
 
